@@ -57,6 +57,9 @@ CHECKS = {
  "C14": ("exploration", "twin-chain differential (migrated vs never migrated, same seed), portfolio equality, raw residue scan of staking/distribution stores, refusal matrix over proposal life-cycle points",
          "Held on the cases observed: seeded portfolios migrate completely (balances, delegations with rewards, unbonding and redelegation entries and their queue entries), the source is empty, totals and invariants unchanged, no record or index still carries the source address, later withdraw / undelegate / maturation pay the target exactly what the never-migrated twin pays the source; migration is refused for bad signatures, reused addresses, validator operators, targets with staking records and for proposers / depositors / voters of proposals at four points of their life.",
          "The source account's secp256k1 public key is written at set-up; the delegator-withdraw-address record is exempt from the residue scan.", "4 C14"),
+ "C15": ("exploration", "online reference model of proposals, deposits and tallies checked after every block, plus twin-branch comparison for partially failing proposals",
+         "Held on the histories observed: gov-module balance equals the stored deposits after every block, every deposit leaves exactly once (refund or burn), voting starts in the block where the total deposit first reaches the minimum applicable to the message type (community-pool spends: configured share of the request when larger), ends after the period of the type, is tallied with the quorum of the type; mixed-type proposals are rejected; a passed proposal whose k-th message fails equals the voted-down twin outside the gov store.",
+         "Voting-power model assumes exchange rate 1 (no slashing in this workload); per-type parameters only change while no proposal of the type is open.", "4 C15"),
 }
 NOT_YET = {}
 def load_props():
